@@ -102,6 +102,26 @@ theorem Counted_run (caps : Caps) (ops : List Op) (hf : OpsFresh (init caps) ops
     Counted (run (init caps) ops) :=
   Counted_run_from _ ops (WF_init caps) hf hs (Counted_init caps)
 
+/-! ### the four conjuncts under the names of the brief -/
+
+/-- the `inflight` conjunct (with its auxiliary invariants): `InflInv` -/
+abbrev CountedInflight := InflInv
+/-- the `connected` conjunct (with its side conditions): `ConnInv` -/
+abbrev CountedConnected := ConnInv
+
+theorem CountedInflight_init (caps : Caps) : CountedInflight (init caps) := InflInv_init caps
+theorem CountedInflight_step (s : Server) (op : Op) (hw : WF s) (hf : OpFresh s op) (hs : OpSched1 s op)
+    (h : CountedInflight s) : CountedInflight (step s op).1 := InflInv_step s op hw hf hs h
+theorem CountedInflight_run (caps : Caps) (ops : List Op) (hf : OpsFresh (init caps) ops)
+    (hs : OpsSched1 (init caps) ops) : CountedInflight (run (init caps) ops) := InflInv_run caps ops hf hs
+
+theorem CountedConnected_init (caps : Caps) : CountedConnected (init caps) := ConnInv_init caps
+theorem CountedConnected_step (s : Server) (op : Op) (hw : WF s) (hf : OpFresh s op) (hs : OpSched s op)
+    (hi : CountedInflight s) (h : CountedConnected s) : CountedConnected (step s op).1 :=
+  ConnInv_step s op hw hf hs hi h
+theorem CountedConnected_run (caps : Caps) (ops : List Op) (hf : OpsFresh (init caps) ops)
+    (hs : OpsSched (init caps) ops) : CountedConnected (run (init caps) ops) := (Counted_run caps ops hf hs).connected
+
 /-! ### what `hcount` is in a quiescent state -/
 
 theorem map_getD_range {α} (l : List α) (d : α) : (List.range l.length).map (fun k => l.getD k d) = l := by
